@@ -249,6 +249,8 @@ class World:
         if stale_hit:
             self.rec.label("recompiled-after-mutation")
             self.nontrivial = True
+        if stale_hit and not getattr(self, "marked", False):
+            self.marked = True
             self.rec.mark_nontrivial({"m": m, "n": self.n_ops, "x": x}, {"definition": pretty(m), "values": dict(self.values),
                                                                          "evaluated": names})
 
